@@ -290,6 +290,8 @@ def install_walker_env(ctx, eng, nsources=1):
         return h
     front(r"^(std::path::)?Path::exists$", s_exists("exists"))
     front(r"^(std::path::)?Path::is_dir$", s_exists("is_dir"))
+    front(r"^(std::path::)?Path::is_file$", s_exists("is_file"))
+    front(r"^(std::path::)?Path::is_symlink$", s_exists("is_symlink"))
 
     # ---- channels
     def s_op_send(eng, st, callee, args, dty):
@@ -385,9 +387,9 @@ def _walker(ctx, src_exprs):
                 cur["ev"].append(e)
         errs = [e for e in ev if is_errev(e)]
         if errs and not is_err(p.ret):
-            ctx.fail("C04/C13: a failed %s makes the walker return Err" % errs[0].name, str(names[-8:]))
+            ctx.fail("C02/C04/C13: a failed %s makes the walker return Err" % errs[0].name, str(names[-8:]))
         elif errs:
-            ctx.passed("C04/C13: every failed call (an entry the walk could not read or resolve included) makes the walker return Err")
+            ctx.passed("C02/C04/C13: every failed call (an entry the walk could not read or resolve included) makes the walker return Err")
         # ---- gitignore wiring (C17)
         gi_new = [e for e in ev if e.name == "gi.new"]
         gi_build = [e for e in ev if e.name == "gi.build" and e.ret == "ok"]
@@ -397,9 +399,17 @@ def _walker(ctx, src_exprs):
             ctx.lemma(eng, "C17: the ignore machinery is only consulted with --gitignore", p.pc, git)
         elif segs:
             ctx.lemma(eng, "C17: with --gitignore every walked entry is put to the matcher", p.pc, z3.Not(git))
+        # C07/C14: GitignoreBuilder::add opens and reads the file: a FIFO (or device) of that name must not be opened
+        for e in [x for x in ev if x.name == "gi.add"]:
+            ctx.lemma(eng, "C07/C14: the ignore file is opened only if it is a regular file (a FIFO named .gitignore would block the walk for ever)",
+                      p.pc, fs_fact("is_file", repr(e.args[0])), key="walker:gitignore-fifo-opened")
         for e in gi_build:
             root, files = e.args
-            if root not in src_exprs or files != (("join", root, ("str", ".gitignore")),):
+            gif = ("join", root, ("str", ".gitignore"))
+            if root in src_exprs and files == ():
+                # no file handed to the builder: legitimate only when there is no regular file of that name
+                ctx.lemma(eng, "C17: the source's .gitignore is left out only when it is not a regular file", p.pc, z3.Not(fs_fact("is_file", repr(gif))))
+            elif root not in src_exprs or files != (gif,):
                 ctx.fail("C17: the matcher is built from <source>/.gitignore with the source as its root", repr(e.args))
             else:
                 ctx.passed("C17: the matcher is built from <source>/.gitignore with the source as its root")
